@@ -1,3 +1,4 @@
+import Photon.Model.ObjLog
 import Photon.Model.ObjCache
 /-!
 # C19 — ObjectCache: one live object per key, never destroyed while borrowed
@@ -240,3 +241,144 @@ example : (run {} [.init 1000, .tick 10, .ctorBegin 7, .ctorEnd 7 none, .retAcqu
 example : (run {} [.init 1000, .tick 10, .retAcquireNoCtor 7 1000000000]).isOk = false := by decide
 
 end Photon.ObjCache
+
+/-! ### several vCPUs: the object ledger of real concurrent runs (`Model/ObjLog.lean`, harness `mv_obj`) -/
+namespace Photon.ObjLog
+
+theorem step_ok (s s' : St) (e : Ev) (h : step s e = .ok s') : pre s e = none ∧ s' = eff s e := by
+  unfold step at h
+  cases hp : pre s e with
+  | some m => rw [hp] at h; exact absurd h (by simp)
+  | none => rw [hp] at h; exact ⟨rfl, by injection h with h; exact h.symm⟩
+
+/-- **C19 (several vCPUs), never destroyed while borrowed.** An accepted destruction is of the key's live object and no reference to
+    it is held. -/
+theorem C19_mv_destroy (s s' : St) (k o : Nat) (h : step s (.destroyed k o) = .ok s') :
+    s.refs.contains o = false ∧ liveOf s k = some o := by
+  obtain ⟨hp, _⟩ := step_ok s s' _ h
+  simp only [pre] at hp
+  cases hr : s.refs.contains o with
+  | true => rw [hr] at hp; simp at hp
+  | false =>
+    rw [hr] at hp
+    simp only [Bool.false_eq_true, if_false] at hp
+    refine ⟨rfl, ?_⟩
+    by_cases hl : liveOf s k = some o
+    · exact hl
+    · rw [if_neg hl] at hp; exact absurd hp (by simp)
+
+/-- **constructor exclusion, one live object per key**: an accepted constructor start finds no constructor running for the key and
+    no live object of the key. -/
+theorem C19_mv_ctor (s s' : St) (k : Nat) (h : step s (.ctorBegin k) = .ok s') :
+    s.ctor.contains k = false ∧ liveOf s k = none := by
+  obtain ⟨hp, _⟩ := step_ok s s' _ h
+  simp only [pre] at hp
+  cases hc : s.ctor.contains k with
+  | true => rw [hc] at hp; simp at hp
+  | false =>
+    rw [hc] at hp
+    simp only [Bool.false_eq_true, if_false] at hp
+    refine ⟨rfl, ?_⟩
+    cases hl : liveOf s k with
+    | none => rfl
+    | some v => rw [hl] at hp; simp at hp
+
+/-- **acquirers share the live object**: an accepted `acquired k o` returns the key's live object. -/
+theorem C19_mv_acquire (s s' : St) (k o : Nat) (h : step s (.acquired k o) = .ok s') : liveOf s k = some o := by
+  obtain ⟨hp, _⟩ := step_ok s s' _ h
+  simp only [pre] at hp
+  by_cases hl : liveOf s k = some o
+  · exact hl
+  · rw [if_neg hl] at hp; exact absurd hp (by simp)
+
+theorem C19_mv_never_dead (s s' : St) : step s .dead ≠ .ok s' := by
+  intro h; obtain ⟨hp, _⟩ := step_ok s s' _ h; simp [pre] at hp
+
+/-- invariant over every accepted history: every held reference is to a live object -/
+def Inv (s : St) : Prop := ∀ o ∈ s.refs, ∃ k, (k, o) ∈ s.live
+
+theorem liveOf_mem (s : St) (k o : Nat) (h : liveOf s k = some o) : (k, o) ∈ s.live := by
+  unfold liveOf at h
+  cases hf : s.live.find? (·.1 == k) with
+  | none => rw [hf] at h; simp at h
+  | some p =>
+    rw [hf] at h
+    simp only [Option.map_some, Option.some.injEq] at h
+    have hm := List.mem_of_find?_eq_some hf
+    have hk := List.find?_some hf
+    simp only [beq_iff_eq] at hk
+    obtain ⟨a, b⟩ := p
+    simp only at hk h
+    subst hk; subst h; exact hm
+
+theorem eff_inv (s : St) (e : Ev) (hi : Inv s) (hp : pre s e = none) : Inv (eff s e) := by
+  cases e with
+  | ctorBegin k => exact hi
+  | dead => exact hi
+  | ctorEnd k o =>
+    intro x hx
+    simp only [eff] at hx ⊢
+    obtain ⟨k', hk'⟩ := hi x hx
+    refine ⟨k', ?_⟩
+    split
+    · exact hk'
+    · exact List.mem_cons_of_mem _ hk'
+  | acquired k o =>
+    intro x hx
+    simp only [eff, List.mem_cons] at hx ⊢
+    rcases hx with hx | hx
+    · subst hx
+      simp only [pre] at hp
+      by_cases hl : liveOf s k = some x
+      · exact ⟨k, liveOf_mem s k x hl⟩
+      · rw [if_neg hl] at hp; exact absurd hp (by simp)
+    · exact hi x hx
+  | releasing k o =>
+    intro x hx
+    simp only [eff] at hx ⊢
+    exact hi x (List.mem_of_mem_erase hx)
+  | destroyed k o =>
+    intro x hx
+    simp only [eff] at hx ⊢
+    simp only [pre] at hp
+    cases hr : s.refs.contains o with
+    | true => rw [hr] at hp; simp at hp
+    | false =>
+      rw [hr] at hp
+      simp only [Bool.false_eq_true, if_false] at hp
+      have hl : liveOf s k = some o := by
+        by_cases hl : liveOf s k = some o
+        · exact hl
+        · rw [if_neg hl] at hp; exact absurd hp (by simp)
+      obtain ⟨k', hk'⟩ := hi x hx
+      have hxo : x ≠ o := by
+        intro hxo; subst hxo
+        have : s.refs.contains x = true := by simpa using hx
+        rw [this] at hr; exact absurd hr (by simp)
+      refine ⟨k', ?_⟩
+      exact (List.mem_erase_of_ne (by intro h; injection h with _ h2; exact hxo h2)).2 hk'
+
+end Photon.ObjLog
+
+namespace Photon.ObjLog
+theorem run_inv (evs : List Ev) : ∀ (s s' : St), Inv s → run s evs = .ok s' → Inv s' := by
+  induction evs with
+  | nil => intro s s' hi h; simp only [run] at h; injection h with h; subst h; exact hi
+  | cons e es ih =>
+    intro s s' hi h
+    simp only [run] at h
+    cases hs : step s e with
+    | error m => rw [hs] at h; exact absurd h (by simp)
+    | ok s1 =>
+      rw [hs] at h
+      obtain ⟨hp, he⟩ := step_ok s s1 e hs
+      exact ih s1 s' (by rw [he]; exact eff_inv s e hi hp) h
+
+/-- **C19 (several vCPUs), a referenced object is live** in every state reached by an accepted history of a concurrent run. -/
+theorem C19_mv_referenced_is_live (evs : List Ev) (s : St) (h : run {} evs = .ok s) : ∀ o ∈ s.refs, ∃ k, (k, o) ∈ s.live :=
+  run_inv evs {} s (by intro o ho; simp at ho) h
+
+example : (run {} [.ctorBegin 1, .ctorEnd 1 7, .acquired 1 7, .acquired 1 7, .releasing 1 7, .releasing 1 7, .destroyed 1 7, .ctorBegin 1, .ctorEnd 1 0]).isOk = true := by decide
+example : (run {} [.ctorBegin 1, .ctorEnd 1 7, .acquired 1 7, .destroyed 1 7]).isOk = false := by decide
+example : (run {} [.ctorBegin 1, .ctorBegin 1]).isOk = false := by decide
+end Photon.ObjLog
